@@ -95,7 +95,16 @@ func (t *twin) list(d int) {
 				t.emit("{{yield "+b+"()}}", `{{ apiYield("`+b+`") }}`)
 			}
 		case "incl":
-			t.both(`{{include "/tinc.jet" ` + r.Pick([]string{"s", "i", "st.B"}) + `}}`)
+			// the included template uses the API / the syntax itself: blocks of the includer, variables, context
+			c := r.Pick([]string{"s", "i", "st.B"})
+			switch r.Intn(3) {
+			case 0:
+				t.emit(`{{include "/tinc_s.jet" `+c+`}}`, `{{include "/tinc_a.jet" `+c+`}}`)
+			case 1:
+				t.emit(`{{ includeIfExists("/tinc_s.jet", `+c+`) }}`, `{{ includeIfExists("/tinc_a.jet", `+c+`) }}`)
+			default:
+				t.both(`{{include "/tinc.jet" ` + c + `}}`)
+			}
 		case "nest":
 			if d <= 0 {
 				t.both("|")
@@ -155,18 +164,21 @@ func twinProg(r *h.Rand) (*prog, string, string) {
 	t.list(2)
 	t.both("#[{{isset(x)}}{{isset(y)}}{{isset(fresh)}}{{ g }}{{ s }}{{ i }}]")
 	p.files["/tinc.jet"] = `(inc:{{.}})`
+	p.files["/tinc_s.jet"] = `(inc:{{ . }}{{yield tb1()}}{{yield tb2() 5}}{{ q9 := 1 }}{{ s }}{{ isset(d) }})`
+	p.files["/tinc_a.jet"] = `(inc:{{ apiContext() }}{{ apiYield("tb1") }}{{ apiYield("tb2", 5) }}{{ apiLet("q9", 1) }}{{ apiResolve("s") }}{{ isset(d) }})`
 	return p, t.syn.String(), t.api.String()
 }
 
 func genTwinCases(r *h.Rand) []h.Case {
 	p, syn, api := twinProg(r)
-	meta := sx.L(sx.A("files"), sx.L(sx.S("/f0.jet"), sx.S(syn)), sx.L(sx.S("/f1.jet"), sx.S(api)), sx.L(sx.S("/tinc.jet"), sx.S(p.files["/tinc.jet"])))
+	meta := sx.L(sx.A("files"), sx.L(sx.S("/f0.jet"), sx.S(syn)), sx.L(sx.S("/f1.jet"), sx.S(api)), sx.L(sx.S("/tinc.jet"), sx.S(p.files["/tinc.jet"])),
+		sx.L(sx.S("/tinc_s.jet"), sx.S(p.files["/tinc_s.jet"])), sx.L(sx.S("/tinc_a.jet"), sx.S(p.files["/tinc_a.jet"])))
 	cs := []h.Case{{
 		Stream: "twins", Meta: meta, NonTrivial: true, NoModel: true,
 		Cmd: sx.L(sx.A("forms"), sx.A(p.esc), p.globals, p.vars, p.data, sx.S("twin"), sx.L(sx.S("/f0.jet"), sx.S("/f1.jet"))),
 	}}
 	q := *p
-	q.files = map[string]string{"/main.jet": api, "/tinc.jet": p.files["/tinc.jet"]}
+	q.files = map[string]string{"/main.jet": api, "/tinc.jet": p.files["/tinc.jet"], "/tinc_a.jet": p.files["/tinc_a.jet"], "/tinc_s.jet": p.files["/tinc_s.jet"]}
 	q.tags = map[string]bool{"api": true}
 	cs = append(cs, evalCase("eval", &q))
 	return cs
